@@ -113,6 +113,10 @@ def job(E, version, name, comps, single=False, dest="/jail/dest", cwd="/jail/cwd
             info["file tree"] = tree
             meta["piece layers"] = layers
     fs.add_token("/jail/t/m.torrent", BenTok(meta))
+    # an unrelated file already sits wherever the hostile path would land outside the destination
+    land = posixpath.normpath(posixpath.join("/jail/dest", name, *(p0 if not single else [])))
+    if not (land == "/jail/dest" or land.startswith("/jail/dest/")) and land not in fs.dirs and land not in fs.files and land != "/":
+        fs.add_token(land, ("VICTIM", 0))
     snap = fs.snapshot()
     w = World(fs, mutants=_mutants)
     try:
@@ -169,6 +173,15 @@ def replay(params, model, notes, workdir, seed):
         meta = refconc.build_meta([(p0, d0), (["g.bin"], d1)], P, version, name=name_r)
     with open(os.path.join(jail, "t", "m.torrent"), "wb") as f:
         f.write(refconc.bencode(meta))
+    # the unrelated file at the landing place outside the destination (as in the model)
+    land_m = posixpath.normpath(posixpath.join("/jail/dest", name, *((list(comps) if comps else ["f.bin"]) if not single else [])))
+    if not (land_m == "/jail/dest" or land_m.startswith("/jail/dest/")) and land_m != "/":
+        land = os.path.normpath(os.path.join(jail, "dest", name_r, *(p0 if not single else [])))
+        if land.startswith(workdir + os.sep) and not os.path.exists(land):
+            try:
+                refconc.write_file(land, b"victim")
+            except OSError:
+                pass
     before = refconc.snapshot(workdir)
     mods = cr.real_torrentfile()
     old = os.getcwd()
